@@ -268,8 +268,9 @@ struct String {
     }
 
     inline void StepBack(const SizeT len) noexcept {
-        if (len <= Length()) {
-            Char_T     *str     = Storage();
+        Char_T *str = Storage();
+
+        if ((str != nullptr) && (len <= Length())) {
             const SizeT new_len = (Length() - len);
 
             setLength(new_len);
